@@ -1025,6 +1025,13 @@ pub fn gen_c17(rng: &mut Rng) -> Value {
             next_dest += 1;
             ops.push(json!({"op":"attach","g":1,"dest":next_dest,"queue":false}));
             ops.push(json!({"op":"forget","g":1}));
+            // the forgotten sink stays: a later attach is refused like any attach on an attached global (twice: the
+            // refusal must not depend on how often it was tried), and entries keep going where they went
+            for k in 0..2 {
+                next_dest += 1;
+                ops.push(json!({"op":"attach","g":1,"dest":next_dest,"queue":false}));
+                ops.push(json!({"op":"append","g":1,"id":9_000 + k,"how":"try"}));
+            }
         }
         threads.push(ops);
     }
